@@ -1,13 +1,173 @@
 package main
 
-// thorough.go — thorough tier: configuration matrix, NaiveForm cross-check and
-// the mutant self-test. Filled in by selftest.go.
+// thorough.go — thorough tier: configuration matrix, mutant self-test,
+// compiler bounds-check cross-reference and VTA reachability cross-check.
+
+import (
+	"fmt"
+	"go/token"
+	"os/exec"
+	"regexp"
+	"sort"
+	"strconv"
+	"strings"
+
+	"golang.org/x/tools/go/callgraph/cha"
+	"golang.org/x/tools/go/callgraph/vta"
+	"golang.org/x/tools/go/ssa"
+	"golang.org/x/tools/go/ssa/ssautil"
+)
 
 func thoroughExtras(run *Run, p *property, repo, vdir string, withSelftest bool) any {
 	out := map[string]any{}
 	out["config_matrix"] = configMatrix(run, p, repo, vdir)
+	if run.IdxSites != nil {
+		out["compiler_bce_crossref"] = bceCrossRef(run, repo)
+	}
+	if run.Property == "C03" || run.Property == "C10" || run.Property == "C13" {
+		out["vta_reachability_crosscheck"] = vtaCrossCheck(run)
+	}
 	if withSelftest {
 		out["mutants"] = selftestFor(run.Property, repo, vdir)
 	}
 	return out
+}
+
+// bceCrossRef asks the Go compiler which bounds checks it could not prove away
+// (-d=ssa/check_bce) and requires that every such site inside a function
+// covered by E-IDX has an E-IDX obligation on the same line: a site the
+// compiler cannot prove and E-IDX does not list would be a hole in E-IDX.
+func bceCrossRef(run *Run, repo string) any {
+	cmd := exec.Command("go", "build", "-gcflags=-d=ssa/check_bce/debug=1", "./...")
+	cmd.Dir = repo
+	cmd.Env = loadEnv()
+	outb, _ := cmd.CombinedOutput()
+	re := regexp.MustCompile(`^(\S+\.go):(\d+):(\d+): Found (IsInBounds|IsSliceInBounds)`)
+	w := run.W
+	type site struct {
+		file string
+		line int
+		kind string
+	}
+	var sites []site
+	for _, l := range strings.Split(string(outb), "\n") {
+		if m := re.FindStringSubmatch(strings.TrimSpace(l)); m != nil {
+			ln, _ := strconv.Atoi(m[2])
+			f := m[1]
+			f = strings.TrimPrefix(f, "./")
+			sites = append(sites, site{f, ln, m[4]})
+		}
+	}
+	// function containing a file:line
+	fnAt := func(file string, line int) *ssa.Function {
+		var best *ssa.Function
+		for _, f := range w.Funcs {
+			syn := f.Syntax()
+			if syn == nil {
+				continue
+			}
+			ps, pe := w.Fset.Position(syn.Pos()), w.Fset.Position(syn.End())
+			if strings.HasSuffix(ps.Filename, "/"+file) && ps.Line <= line && line <= pe.Line {
+				if best == nil || w.Fset.Position(best.Syntax().Pos()).Line <= ps.Line {
+					best = f
+				}
+			}
+		}
+		return best
+	}
+	matched, uncovered, outside := 0, 0, 0
+	var missing []string
+	for _, s := range sites {
+		f := fnAt(s.file, s.line)
+		if f == nil || !run.IdxSites["fn:"+FuncName(f)] {
+			outside++
+			continue
+		}
+		ok := false
+		for k := range run.IdxSites {
+			if strings.HasSuffix(k, "/"+s.file+":"+strconv.Itoa(s.line)) {
+				ok = true
+			}
+		}
+		if ok {
+			matched++
+		} else {
+			uncovered++
+			missing = append(missing, fmt.Sprintf("%s:%d %s in %s", s.file, s.line, s.kind, FuncName(f)))
+		}
+	}
+	sort.Strings(missing)
+	if len(sites) == 0 {
+		run.Undecided("BCE-CROSSREF", "compiler output", token.NoPos, "the compiler reported no bounds-check sites at all (go build failed?): "+firstLines(string(outb), 3))
+	}
+	for _, m := range missing {
+		run.Undecided("BCE-CROSSREF", m, token.NoPos, "the compiler cannot prove this bounds check away and E-IDX has no obligation on that line (hole in the prover's obligation enumeration)")
+	}
+	if len(missing) == 0 && len(sites) > 0 {
+		run.Check("BCE-CROSSREF", "all compiler-unproven sites in covered functions are E-IDX obligations", token.NoPos, true,
+			fmt.Sprintf("%d unproven bounds checks reported by the compiler; %d lie in functions covered by E-IDX and each has an obligation; %d are outside (registration-time or helper code)", len(sites), matched, outside))
+	}
+	return map[string]any{"compiler_sites": len(sites), "in_covered_functions_with_obligation": matched, "in_covered_functions_without_obligation": uncovered, "outside_covered_functions": outside, "missing": missing}
+}
+
+func firstLines(s string, n int) string {
+	ls := strings.Split(s, "\n")
+	if len(ls) > n {
+		ls = ls[:n]
+	}
+	return strings.Join(ls, " | ")
+}
+
+// vtaCrossCheck recomputes request-phase reachability with x/tools' VTA call
+// graph (seeded by CHA) over the whole program and requires that every module
+// function it reaches from the router's entry points is in the checker's own
+// request-phase set: the rules' own call graph must not be missing an edge.
+func vtaCrossCheck(run *Run) any {
+	w := run.W
+	cgMine := w.BuildCG()
+	ph := w.Phases(cgMine)
+	g := vta.CallGraph(ssautil.AllFunctions(w.Prog), cha.CallGraph(w.Prog))
+	roots := []*ssa.Function{w.Fn("rux", "Router.ServeHTTP"), w.Fn("rux", "Router.HandleContext"), w.Fn("rux", "Router.Match"), w.Fn("rux", "Router.QuickMatch")}
+	seen := map[*ssa.Function]bool{}
+	var walk func(f *ssa.Function)
+	walk = func(f *ssa.Function) {
+		if f == nil || seen[f] {
+			return
+		}
+		seen[f] = true
+		// stay inside the module: library internals are not analysed by the rules either
+		if !w.InModule(f) {
+			return
+		}
+		n := g.Nodes[f]
+		if n == nil {
+			return
+		}
+		for _, e := range n.Out {
+			walk(e.Callee.Func)
+		}
+	}
+	for _, r := range roots {
+		walk(r)
+	}
+	var missing []string
+	n := 0
+	for f := range seen {
+		if !w.InModule(f) || f.Blocks == nil || f.Synthetic != "" {
+			continue
+		}
+		n++
+		if !ph.Req[f] {
+			missing = append(missing, FuncName(f))
+		}
+	}
+	sort.Strings(missing)
+	for _, m := range missing {
+		run.Undecided("VTA-CROSSCHECK", m, token.NoPos, "VTA reaches this module function from the request entry points but the checker's request-phase set does not contain it")
+	}
+	if len(missing) == 0 {
+		run.Check("VTA-CROSSCHECK", "request-phase set is a superset of VTA reachability", token.NoPos, true,
+			fmt.Sprintf("%d module functions reachable under VTA from ServeHTTP/HandleContext/Match/QuickMatch, all inside the checker's request-phase set of %d functions", n, len(ph.Req)))
+	}
+	return map[string]any{"vta_reachable_module_functions": n, "request_phase_functions": len(ph.Req), "missing": missing}
 }
